@@ -201,7 +201,18 @@ def main(tier):
     run.evaluations += len(allcases)
     run.traces += len(allcases)
     run.samples = [{k: allcases[0][k] for k in ("id", "kind", "paramset", "input", "output", "ncons")}]
-    ggh = {str(P): [sha_coef(i, P) for i in range(8)]}
+    # second field for the subset-sum hash: P2 = 16411 is just above 2^14, so about half of the SHA-512 candidates are
+    # rejected and the retry path of the coefficient derivation is exercised at most indices
+    P2 = 16411
+    gp = [p for p in ggh_programs(tier) if p["id"].split("/")[1] in ("5", "6") or tier != "quick"]
+    for p_ in gp:
+        p_["id"] = "p2/" + p_["id"]
+    gt = common.run_programs({"P": P2, "bitlength": 6, "resolution": 1, "modname": "pysnark.nobackend", "env_backend": "nobackend"}, gp)
+    c2 = cases_from(gt, P2, str(P2))
+    allcases += c2
+    allprogs += gp
+    run.evaluations += len(c2)
+    ggh = {str(P): [sha_coef(i, P) for i in range(8)], str(P2): [sha_coef(i, P2) for i in range(8)]}
     data = {"cases": allcases, "params": params, "ggh": ggh}
     r = common._tlc_on_chunk("TraceHash", "TraceHash.cfg", data, 16, False, False, "6g")
     run.add_tlc(r, "gadget vs reference over P=%d" % P)
